@@ -30,6 +30,7 @@ type Run struct {
 	Assume  []string
 	Level   string
 	Samples []any
+	UndefLimit float64
 }
 
 type Violation struct {
@@ -53,7 +54,7 @@ func NewRun(id, tier string) *Run {
 		Fatal("mkdir: %v", err)
 	}
 	return &Run{ID: id, Tier: tier, Seed: seed, Dir: dir, Start: time.Now(),
-		Known: map[string]int{}, Cov: map[string]any{}, Level: "model_checking"}
+		Known: map[string]int{}, Cov: map[string]any{}, Level: "model_checking", UndefLimit: 0.05}
 }
 
 func (r *Run) Logf(format string, a ...any) {
@@ -239,7 +240,7 @@ func (r *Run) Validate(family string, sessions []Sess, extraHeader map[string]an
 	if err != nil {
 		Fatal("trace validation (%s): %v", family, err)
 	}
-	if res.Events > 0 && float64(res.Undef) > 0.05*float64(res.Events) {
+	if res.Events > 0 && float64(res.Undef) > r.UndefLimit*float64(res.Events) {
 		Fatal("trace validation (%s): %d of %d events outside the modelled domain", family, res.Undef, res.Events)
 	}
 	return res
